@@ -396,6 +396,47 @@ def attempt(f):
         return exc_code(ex), ex
 
 
+def hash_burst(case, c, inst, n=200):
+    """make, hash and drop n instances of type(inst) whose compare fields hold fresh integers (built without __init__: only
+    __hash__ is under test); every hash must be the hash of the tuple of compare fields.  -> None or a description"""
+    cls = type(inst)
+    fs = merged_fields(case, c)
+    cmp_names = [fname(f['name']) for f in fs if f['compare']]
+    if not cmp_names:
+        return None
+
+    def make(k):
+        o = object.__new__(cls)
+        for f in fs:
+            nm = fname(f['name'])
+            if f['compare']:
+                object.__setattr__(o, nm, k * 31 + f['name'])
+            elif hasattr(inst, nm):
+                object.__setattr__(o, nm, getattr(inst, nm))
+        return o
+
+    def tup(o):
+        return tuple(getattr(o, nm) for nm in cmp_names)
+    try:
+        keep = make(-1)
+    except (AttributeError, TypeError):       # a class whose fields cannot be set this way is not probed
+        return None
+    hk = hash(keep)
+    if hk != hash(tup(keep)):
+        return {'burst': 'instance kept alive', 'impl': hk, 'tuple': hash(tup(keep))}
+    for k in range(n):
+        o = make(k)
+        h, t = hash(o), hash(tup(o))
+        if h != t:
+            return {'burst': f'short-lived instance number {k} (made after {k} others of the class were hashed and dropped)',
+                    'fields': list(tup(o)), 'impl': h, 'tuple': t}
+        del o
+    twin = make(-1)
+    if hash(twin) != hk or hash(keep) != hk or not (twin == keep):
+        return {'burst': 'equal instances made before and after the burst hash differently', 'impl': [hk, hash(twin), hash(keep)]}
+    return None
+
+
 def run_op(w, case, classes, call, regs, op):
     """-> (obs, viol, note)"""
     kind = op[0]
@@ -570,6 +611,12 @@ def run_op(w, case, classes, call, regs, op):
             scode, sres = attempt(lambda: hash(ta))
             if ta is not None and head_decorated(case, ca) and ((code, res if code == 0 else None) != (scode, sres if scode == 0 else None)):
                 viol.append({'clause': 'hash is the hash of the tuple of fields', 'impl': [code, str(res)[:40]], 'tuple': [scode, str(sres)[:40]]})
+            # history independence: a burst of short-lived instances of the same class with other field values (each one
+            # dropped before the next is made, so that CPython recycles the address), and an equal pair made before / after
+            if head_decorated(case, ca):
+                bad = hash_burst(case, ca, ia)
+                if bad:
+                    viol.append(dict(bad, clause='hash is the hash of the tuple of fields'))
             # the model reports the tuple that is hashed; whether hashing it raises is Python's business
             prov = next((k for k in chain_of(case, ca) if k['deco'] is not None), None)
             try:
